@@ -159,7 +159,7 @@ func runC13(c *report.Ctx) {
 	p := c.P
 	san := map[string]bool{
 		an.Module + "/masswallet/keystore.padByteSlice": true,
-		"(*math/big.Int).SetBytes":                       true,
+		"(*math/big.Int).SetBytes":                      true,
 	}
 	ruleBigIntBytes(c, pkgKeystore, 3, san, nil)
 	// padByteSlice itself left-pads
